@@ -145,6 +145,12 @@ def run_C01(ctx):
     cases = corpus("C01") + gen_cases(ctx, n, 5, ctx.scale(60, 300), big_cache=True, p_reject=0.0)
     impl, model = seq_run(ctx, cases)
     spec_oracle(ctx, cases, impl, "C01 oracle")
+    # extraction cross-check: the kernel's VM must agree with the extracted OCaml model
+    import vmcheck
+    nvm, vmf = vmcheck.run_vm(ctx, cases, n=ctx.scale(12, 96))
+    for m in vmf[:2]:
+        ctx.fail("corr", "extraction cross-check: vm_compute inside Coq disagrees with the extracted model", dict(check="vm", detail=m))
+    ctx.k_checks["extraction-vs-vm_compute"] = (not vmf, nvm)
     cov(ctx, cases, impl, "seeded structured legal histories (truncate-then-append at a lower term, purge beyond last, first append at a non-zero index, empty and multi-KB payloads) x random chunk/read-buffer settings incl. 0 and 1, big cache; distinct by case line; non-trivial = contains a chunk rotation or a refused/boundary operation")
     return core.finish(ctx, proof)
 
